@@ -108,6 +108,18 @@ def main():
     ok &= expect("Trace_Reduce accepts the real reductions", v[1], "ok")
     ok &= expect("Trace_Reduce rejects two swapped reductions", v[2], "mismatch")
     ok &= expect("Trace_Reduce rejects a dropped reduction", v[3], "missing-events")
+    # --- Trace_Diag
+    texts = ["foo(1) #", "concat()'s',a)", "a eq ) b", "(a #", "a eq 1"]
+    real = [project.diag(t) for t in texts]
+    cases = [{"id": i + 1, "text": cps(t), "real": r} for i, (t, r) in enumerate(zip(texts, real))]
+    cases.append({"id": 6, "text": cps(texts[1]), "real": ["syntax", real[1][1] + 1]})       # position moved by one
+    cases.append({"id": 7, "text": cps(texts[0]), "real": ["token", 7]})                      # the error that would come second
+    cases.append({"id": 8, "text": cps(texts[4]), "real": ["syntax", -1]})
+    v = verdicts("Trace_Diag", cases)
+    ok &= expect("Trace_Diag accepts the real diagnoses", [v[i] for i in range(1, 6)], ["ok"] * 5)
+    ok &= expect("Trace_Diag rejects an error position off by one", v[6], "differs")
+    ok &= expect("Trace_Diag rejects the later of two errors", v[7], "differs")
+    ok &= expect("Trace_Diag rejects an error for an accepted input", v[8], "differs")
     print("ALL OK" if ok else "SOME FAILED")
     return 0 if ok else 1
 
